@@ -35,6 +35,10 @@ CHECKS['C06'] = dict(level='model_checking', design='1/C06',
 CHECKS['C07'] = dict(level='model_checking', design='1/C07',
      text='Xml::decode is executed on every byte string up to the stated length and every sequence of tokens from an XML token table (tags, attributes, references, comments, PIs, DOCTYPE, stray < and &): memory safety, termination, and parent() consistency of the returned tree are decided on every path; XmlCodec::encode followed by decode is checked for structural equality on DOM shapes whose attribute values and text bytes are symbolic.',
      note='Bounds in evidence (depth <= 3). Trusted: z3, engine IR semantics, engine model of __dynamic_cast.')
+CHECKS['C20'] = dict(level='proof', design='1/C20', engine='E-REAL',
+     technique='symbolic execution of the real matrix templates by operator overloading (term-building scalar, rational functions with cleared denominators), every comparison path enumerated; z3 nlsat decides each QF_NRA identity; counterexamples replayed with the double instantiation',
+     text='asl Matrix3_/Matrix4_/Matrix_/Quaternion_ templates are instantiated with a scalar that builds SMT-LIB Real terms, so the formulas are produced by running the real inverse(), det(), operator*, solve()/solve_() (every pivot order = one path with its own path condition) and Matrix4::rotation() (all four branches); z3 proves M*inv(M)=inv(M)*M=I and det=reference determinant (3x3 affine, 4x4), det(AB)=det(A)det(B), A*solve(A,b)=b for n=2,3 (thorough 4), the normal equations for 3x2 (thorough 4x2, 4x3) and unit quaternion -> matrix -> quaternion = +-q, as identities over all reals.',
+     note='Only the dimension is bounded. Outside: floating-point residual clause, all conversions through sin/cos/atan2/acos (axis-angle, Euler). Matrix3 products are defined for affine matrices (last row 0 0 1) only, as documented. Trusted: z3 nlsat, engine/symreal.h.')
 NA = {
 }
 ALL = ['C%02d' % i for i in range(1, 21)]
@@ -45,7 +49,8 @@ man = {
            'baseline_off_cmd': 'cmake -S /repo -B /repo/_build -G Ninja -DASL_TESTS=ON >/dev/null && cmake --build /repo/_build >/dev/null && ctest --test-dir /repo/_build -j8 --timeout 900',
            'source_commits': [], 'add_only': True},
  'engines': [
-   {'name': 'E-SYM', 'path': 'engine/llsym.py', 'serves_properties': sorted(CHECKS), 'kind_free_text': 'path-wise symbolic executor over clang-14 LLVM IR of the real asl sources, z3 back end, native ASan/UBSan replay of counterexamples and sampled path models'},
+   {'name': 'E-REAL', 'path': 'engine/symreal.h', 'serves_properties': ['C20'], 'kind_free_text': 'term-building scalar instantiating the real matrix templates; QF_NRA queries decided by z3'},
+   {'name': 'E-SYM', 'path': 'engine/llsym.py', 'serves_properties': sorted(k for k in CHECKS if k != 'C20'), 'kind_free_text': 'path-wise symbolic executor over clang-14 LLVM IR of the real asl sources, z3 back end, native ASan/UBSan replay of counterexamples and sampled path models'},
  ],
  'checks': [], 'not_applicable': [],
  'notes': 'All checks: ./check <id> [--tier quick|thorough]; exit 0 = held within bounds, 1 = VIOLATION (natively replayed), 3 = engine could not decide (never reported as success).',
